@@ -749,11 +749,11 @@ def compare_schemas(write: Any, read: Any) -> Any:
             raise ValueError
         # JsonSchema instances, so that the version conversion applies to merged schemas too
         merged: Dict[str, Any] = JsonSchema()
-        for key in write.keys() | read.keys():
+        for key in {**write, **read}:  # (not a set: keep the order of the keys)
             if key in write and key in read:
                 if key == "properties":
                     merged[key] = {}
-                    for prop in write[key].keys() | read[key].keys():
+                    for prop in {**read[key], **write[key]}:
                         if prop in write[key] and prop in read[key]:
                             merged[key][prop] = compare_schemas(
                                 write[key][prop], read[key][prop]
